@@ -165,6 +165,52 @@ def post_initial_pressure(C):
             ('pressure-law-at-start', n.f(c, 'cell.pressure_') == z3.If(-K * LOG(V / (V * EXP(p_init / K))) > pmax, pmax, -K * LOG(V / (V * EXP(p_init / K)))))]
 
 
+# ---- V8: every listed cell gets its internal forces once per iteration, with the configured time step ---------------------------------------------------
+def forces_callee():
+    def pre(C):
+        o = C.old
+        s = C.st.ghost.get('solver') if hasattr(C, 'st') else None
+        return []
+    def on_call(C, st):
+        from values import GuardedLog
+        st.ghost['forces_on'] = st.ghost.get('forces_on', GuardedLog()).add((C.this if not hasattr(C.this, 'ref') else C.this.ref, C.arg('time_step')))
+    return Contract('cell::apply_internal_forces', PROP, frame=lambda C: [('*', None)], on_call=on_call, assumed=True, name='cell::apply_internal_forces (any effect; receiver and time step recorded)')
+
+
+def post_forces_body(C):
+    o = C.old
+    g = C.post_state.ghost
+    i = [v for k, v in C.pre_state.env.items() if C.e.var_names.get(k) == 'i'][-1]
+    from values import LVS
+    if isinstance(i, LVS): i = C.e.load(C.pre_state, i)
+    lst = o.sub(C.this, 'solver.cell_lst_')
+    cell_i = o.at(lst, i, 'int')
+    dt = o.f(o.sub(C.this, 'solver.sim_parameters_'), 'global_simulation_parameters.time_step_')
+    log = g.get('forces_on')
+    entries = log.entries if log is not None else []
+    return [('the-cell-at-this-position-gets-its-internal-forces-with-the-configured-time-step',
+             z3.Or(*[z3.And(gd, c_ == cell_i, dt_ == dt) for (gd, (c_, dt_)) in entries]) if entries else z3.BoolVal(False)),
+            ('exactly-one-call-per-cell', z3.BoolVal(len(entries) == 1))]
+
+
+def post_forces_start(C):
+    if C.outcome != 'loop-entry': return [('the-internal-forces-loop-is-reached-on-every-path', z3.BoolVal(C.outcome not in ('ret', None)))]
+    i = [v for k, v in C.post_state.env.items() if C.e.var_names.get(k) == 'i'][-1]
+    from values import LVS
+    if isinstance(i, LVS): i = C.e.load(C.post_state, i)
+    return [('the-internal-forces-loop-starts-at-the-first-cell', i == 0)]
+
+
+def pre_forces_body(C):
+    o = C.old
+    i = [v for k, v in C.pre_state.env.items() if C.e.var_names.get(k) == 'i'][-1]
+    from values import LVS
+    if isinstance(i, LVS): i = C.e.load(C.pre_state, i)
+    lst = o.sub(C.this, 'solver.cell_lst_')
+    return [('index-is-a-size_t', i >= 0), ('cell-non-null', o.at(lst, i, 'int') > 0)]
+
+
+
 def build(reg):
     reg.add(Contract('cell::update_target_volume', PROP, post=post_target_volume, assigns=['cell.target_volume_']))
     reg.add(Contract('cell::update_pressure', PROP, post=post_pressure, assigns=['cell.pressure_', 'cell.pressure_energy_']))
@@ -192,6 +238,10 @@ def build(reg):
         reg.add_loop(LoopContract('solver::run_iteration', k, lambda L: [], modifies=['*']))
     # loop 3 renumbers the position indices after the removal (C08): it writes cell.local_id_ only
     reg.add_loop(LoopContract('solver::run_iteration', 3, lambda L: [], modifies=['cell.local_id_']))
+    # V8 (loop 2 of run_iteration: the internal-forces loop)
+    reg.add(Contract('solver::run_iteration', PROP, pre=pre_forces_body, post=post_forces_body, slice_loop=2, use=[forces_callee()], safety={'bounds'},
+                     name='solver::run_iteration::<internal forces loop body>'))
+    reg.add(Contract('solver::run_iteration', PROP, post=post_forces_start, prefix_loop=2, use=hv, name='solver::run_iteration::<internal forces loop starts at the first cell>'))
     # V7
     reg.add(Contract('solver::solver', PROP, signature='global_simulation_parameters', post=post_initial_pressure, slice_loop=1, name='solver::solver::<initial pressure loop>'))
 
